@@ -4,7 +4,7 @@
 From Coq Require Import List NArith Bool Lia.
 From Conductor Require Import Lib.Regex Lib.PyRegex Lib.Str Gen.Generated.
 Import ListNotations.
-Open Scope N_scope.
+Local Open Scope N_scope.
 
 Record ident := { ipath : list str; iname : str }.
 
